@@ -5,7 +5,8 @@ replicated data (`replicated`), at the exact carrier `Rat`, and report both resu
 identical.  Per-row fitted values (indexed by the id of the original row, so that the copies carry the
 value of their original) come from the harness.
     c09 est=<std|iptw|stoch|gform|gtrans|aipw|snm> s= a= y= k= [obs=] <estimator arguments>
-    c09surv pid= t= h= k= times=
+    c09surv pid= t= h= k= times=            (k constant within a person)
+    c09survrows pid= t= h= k= times=        (k per person-period row)
 -/
 import Driver.Ops.Std
 import ZepidVerif.Model.Replicate
@@ -127,6 +128,28 @@ def opC09Surv (a : Args) : Except String String := do
   let R := replicatedP P
   pure (showPairs (times.map fun tt => (s!"t{tt}", survMarginal W tt, survMarginal R tt)) ++ s!" persons={P.length}")
 
-def opsC09 : OpTable := [("c09", opC09), ("c09surv", opC09Surv)]
+/-- individuals with a weight on every row, from long-format rows sorted by (pid, time): `pid= t= h= k=` -/
+def groupRows : List Nat → List Nat → List Rat → List Nat → List (Nat × List (Nat × Rat × Nat))
+  | p :: ps, t :: ts, h :: hs, k :: ks =>
+    match groupRows ps ts hs ks with
+    | (q, rows) :: rest => if q == p then (q, (t, h, k) :: rows) :: rest else (p, [(t, h, k)]) :: (q, rows) :: rest
+    | [] => [(p, [(t, h, k)])]
+  | _, _, _, _ => []
+
+/-- `c09survrows`: row-level weights (theorem `survival_replicate_rows`); `mono` reports its hypothesis -/
+def opC09SurvRows (a : Args) : Except String String := do
+  let pid ← nats a "pid"
+  let t ← nats a "t"
+  let h ← rts a "h"
+  let k ← nats a "k"
+  let times ← nats a "times"
+  if pid.length ≠ t.length ∨ pid.length ≠ h.length ∨ pid.length ≠ k.length then throw "bad-arg:lengths"
+  let P := (groupRows pid t h k).map (·.2)
+  let R := replicatedRows P
+  let mono := P.all fun p => nonIncreasing p
+  pure (showPairs (times.map fun tt => (s!"t{tt}", survMarginalRows P tt, survMarginal R tt))
+    ++ s!" persons={P.length} copies={R.length} mono={showBool mono}")
+
+def opsC09 : OpTable := [("c09", opC09), ("c09surv", opC09Surv), ("c09survrows", opC09SurvRows)]
 
 end ZVD
